@@ -165,7 +165,7 @@ def gen_dataset(rng, options=True):
         if rng.random() < 0.2:
             a, b = near(lats, 0.5), near(lats, 0.5)
             cfg["lat"] = [min(a, b), max(a, b)] if rng.random() < 0.9 else [max(a, b) + 1, min(a, b)]
-        if rng.random() < 0.2:
+        if rng.random() < (0.6 if "lat" in cfg else 0.2):      # both ranges together are common: a lat/lon box
             a, b = near(lons, 0.5), near(lons, 0.5)
             cfg["lon"] = [min(a, b), max(a, b)]
         if rng.random() < 0.2:
